@@ -237,6 +237,19 @@ static void work_g(long lo, long hi, struct res *r, void *arg) {
     if (r->nsample < 1 && lo < hi) res_sample(r, "LF, CR, CRLF, TAB, VT, FF, 01, 7F alone, before / after / inside a valid phrase of each language");
 }
 
+/* (h) words written without any separator: n list words of one language glued together, n = 1 .. 220 (up to and beyond the capacity of the
+ * library's phrase buffer); a front end that "helpfully" re-inserts separators has to cope with every length */
+static void work_h(long lo, long hi, struct res *r, void *arg) {
+    (void)arg;
+    for (long x = lo; x < hi; x++) {
+        int n = (int)(x % 220) + 1, li = (int)(x / 220) % R_NLANG, form = (int)(x / 220 / R_NLANG) % 2; static char s[220 * 40 + 8]; size_t len = 0;
+        for (int i = 0; i < n && len < 1200; i++) { const char *w = RL[li].w[(unsigned)(i * 131 + n * 7 + li) % R_NW]; char c[80]; size_t wl; if (form) wl = u_nfc(w, c, sizeof c - 1); else { wl = strlen(w); memcpy(c, w, wl); } memcpy(s + len, c, wl); len += wl; }
+        s[len] = 0;
+        feed(s, len, r, (uint64_t)x + (6ull << 40), n <= 3);
+    }
+    if (r->nsample < 1 && lo < hi) res_sample(r, "1 to 220 words of each language glued together without separators, as stored and composed");
+}
+
 int main(int argc, char **argv) {
     int a = common_args(argc, argv);
     ref_init(VERIF_ROOT); sec_mark_initial(); env_init(); inject(0); polyseed_enable_features(7);
@@ -262,6 +275,7 @@ int main(int argc, char **argv) {
     memset(r, 0, sizeof *r); par_run(7L * 4680, work_c, NULL, r); out_part("c: boundary-length families", r, CLS, "");
     memset(r, 0, sizeof *r); par_run(1920, work_d, NULL, r); out_part("d: well-formed phrases with each of the 32 feature values, every language, three enabled masks", r, CLS, "");
     memset(r, 0, sizeof *r); par_run(12L * 5 * R_NLANG, work_g, NULL, r); out_part("g: line terminators and control characters", r, CLS, "");
+    memset(r, 0, sizeof *r); par_run(220L * R_NLANG * 2, work_h, NULL, r); out_part("h: list words glued together without separators", r, CLS, "");
     memset(r, 0, sizeof *r); par_run((long)NSH * 4, work_f, NULL, r); out_part("f: 16 abbreviations that 2 to 6 word lists accept at once", r, CLS, "every number of simultaneously matching languages");
     memset(r, 0, sizeof *r); par_run(14, work_e, NULL, r); out_part("e: strings of 2^31 and 2^32 bytes and their neighbours", r, CLS, "lengths that do not fit an int / unsigned");
     out_kv_int("alphabet", 9); out_kv_int("max_len_a", LMAX); out_kv_int("max_tail_b", LB);
